@@ -228,7 +228,7 @@ impl Prop for C04 {
 				// one hostile number in place of a length / count / index
 				let cands: Vec<_> = tokens
 					.iter()
-					.filter(|t| matches!(t.kind, TokKind::LenPrefix | TokKind::BlockCount | TokKind::BlockSize | TokKind::UnionIndex | TokKind::EnumIndex))
+					.filter(|t| matches!(t.kind, TokKind::LenPrefix | TokKind::BlockCount | TokKind::BlockSize | TokKind::UnionIndex | TokKind::EnumIndex | TokKind::DecimalInner))
 					.collect();
 				if cands.is_empty() {
 					"valid".into()
@@ -247,6 +247,7 @@ impl Prop for C04 {
 						TokKind::LenPrefix => "hostile-length".into(),
 						TokKind::BlockCount => "hostile-count".into(),
 						TokKind::BlockSize => "hostile-block-size".into(),
+						TokKind::DecimalInner => "hostile-bigdecimal-inner".into(),
 						TokKind::UnionIndex => "hostile-union-index".into(),
 						_ => "hostile-enum-index".into(),
 					}
